@@ -141,6 +141,13 @@ def predicted_modes(M, C):
         for c in cfs:
             if c in per_fn:
                 out.setdefault(jn, set()).update(per_fn[c])
+    # fopen: modes certified where io.c checkflags hands back the parsed mode (JANET_FILE_* bits)
+    ff = set()
+    for n, (fn, op, succ) in enumerate(M.nodes):
+        if op[0] == "libc" and op[2] == "janet-file-flags":
+            ff.update(m for m, k in C.K[n])
+    if ff:
+        out["file/open#fopen"] = ff
     return out
 
 
@@ -165,6 +172,11 @@ def analyse(M, res, predicted, pmodes=None):
             md = int(d.get("acc", 0)) | (64 if d.get("creat") == "1" else 0) | (512 if d.get("trunc") == "1" else 0)
             if md not in pmodes[binding]:
                 unpred.append(dict(binding=binding, call=name + " mode %d" % md, detail=detail.replace(res["dir"], "<dir>")))
+        if name in ("fopen", "fopen64") and binding == "file/open" and kind == "c" and vm == "vm" and "file/open#fopen" in pmodes:
+            ms = dict(x.split("=", 1) for x in detail.split() if "=" in x).get("mode", "")
+            md = (1 if "w" in ms else 0) | (2 if "r" in ms else 0) | (4 if "a" in ms else 0) | (8 if "+" in ms else 0)
+            if md not in pmodes["file/open#fopen"]:
+                unpred.append(dict(binding=binding, call=name + " mode-bits %d" % md, detail=detail.replace(res["dir"], "<dir>")))
         groups = dyn_need(M.sens, binding, name, detail)
         if not groups:
             continue
@@ -451,7 +463,8 @@ def run(ctx):
         "the set `mayGrow` of functions outside the slice that may change the flag word is computed by the translator (not certificate-checked)",
         "Cap.lean: which OS call needs which capability; exemptions ts_now/clock_gettime, janet_cryptorand/open(/dev/urandom), os_execute_impl/environ; operations on handles that already exist (accept, read, write, waitpid, kill) are not acquisitions",
         "open(2): the flags variable is tracked statically (access mode, O_CREAT, O_TRUNC; Linux constants in Cap.lean) and the matching capability is required per path; the sweep checks that observed modes are among the certified ones",
-        "other argument-dependent calls (fopen mode string, dlopen, getaddrinfo, bind): statically some capability of the group is asserted on every path; the right one for the arguments is checked dynamically only; fopen \"w+\" counts as write-kind",
+        "fopen: io.c checkflags' result variable (JANET_FILE_* bits) is tracked statically and the matching capability is required where it is handed back (w+ = write-kind, a+ = read and write); that libc parses the same string the same way is trusted and compared with observed mode strings",
+        "other argument-dependent calls (dlopen, getaddrinfo, bind): statically some capability of the group is asserted on every path; the right one for the arguments is checked dynamically only",
         "havoc nodes = interpreter runs (Ex in Model.lean): indirect calls reach only entry points of the graph, functions outside the slice, or janet_sandbox; every address-taken function of the slice is an entry point (by construction of the translator)",
     ])
 
